@@ -52,7 +52,8 @@ Begin(e) ==
    IN [pid |-> e.pid, dead |-> ~e.raw.ok, cfg |-> e.cfg, oem |-> oem, m |-> InitModel(D, oem), raw |-> e.raw, D |-> D,
        rv |-> Get(e, "rv", [ok |-> FALSE]), sv |-> <<>>, svok |-> FALSE,
        mounted |-> FALSE, mountSt |-> e.raw.st, changed |-> FALSE, clk |-> e.clk, ro |-> TRUE,
-       atime |-> Get(e.cfg, "atime", FALSE), U |-> e.raw.g.cell, fiUsable |-> FALSE, fiW |-> FALSE, mountRaw |-> e.raw]
+       atime |-> Get(e.cfg, "atime", FALSE), U |-> e.raw.g.cell, fiUsable |-> FALSE, fiW |-> FALSE, mountRaw |-> e.raw,
+       dur |-> {}, wl |-> 0, crv |-> [ok |-> FALSE]]
 
 Dead == [pid |-> "", dead |-> TRUE]
 
@@ -295,6 +296,13 @@ SegOk(s, seg, post, Dpost) ==
 Step(s, e) ==
    IF e.op = "begin" THEN [s |-> Begin(e), v |-> {}, dev |-> {}, note |-> {}]
    ELSE IF s.dead \/ e.op = "end" THEN [s |-> s, v |-> {}, dev |-> {}, note |-> {}]
+   ELSE IF e.op = "crash" THEN
+        \* C14: the image a power cut leaves after the first e.p entries of the device write log
+        LET rvc == IF Has(e, "rv") THEN e.rv ELSE s.crv
+            need == {r \in s.dur : r.lo <= e.p /\ e.p <= r.hi}
+            found(r) == rvc.ok /\ \E i \in 1..Len(rvc.tree) : rvc.tree[i].p = r.p /\ rvc.tree[i].k = "f" /\ rvc.tree[i].c = r.d
+        IN [s |-> [s EXCEPT !.crv = rvc], v |-> Tag("C14.durable", \A r \in need : found(r)), dev |-> {},
+            note |-> IF need = {} THEN {} ELSE {"C14n"}]
    ELSE IF e.op = "poke" THEN
         \* the unmounted image was modified by someone else (harness): adopt the new projection, judge nothing
         LET post == IF Has(e, "raw") THEN e.raw ELSE s.raw IN
@@ -373,10 +381,23 @@ Step(s, e) ==
               THEN Tag("C05.fsinfo_count", post.fi.free = -1 \/ post.fi.free = FreeCount(Dp.F))
                    \cup Tag("C05.fsinfo_hint", post.fi.next = -1 \/ (post.fi.next >= 2 /\ post.fi.next <= post.g.n + 1))
               ELSE {}
+       \* ---- C14 bookkeeping (only when the device write log is recorded)
+       wlNow == Get(e, "wl", s.wl)
+       hnode == IF Has(e, "a") /\ Has(e.a, "h") /\ e.a.h \in DOMAIN s.m.fh THEN {s.m.fh[e.a.h].node} ELSE {}
+       touched == IF ~Has(e, "wl") THEN {}
+                  ELSE (IF e.op \in {"write", "write_all", "truncate", "set_created", "set_modified", "set_accessed"} THEN hnode ELSE {})
+                       \cup (IF e.op \in {"remove", "rename"} /\ e.r.k = "ok"
+                             THEN {i \in Ids(s.m) : i \notin Ids(m) \/ PathOf(m, i, 64) # PathOf(s.m, i, 64)} ELSE {})
+       flushed == IF ~Has(e, "wl") \/ e.r.k # "ok" THEN {}
+                  ELSE IF e.op \in {"flush", "close"} THEN hnode
+                  ELSE IF e.op = "close_all" THEN {s.m.fh[h].node : h \in DOMAIN s.m.fh} ELSE {}
+       dur == {IF r.n \in touched /\ r.hi = 1073741824 THEN [r EXCEPT !.hi = s.wl] ELSE r : r \in s.dur}
+              \* durable from the last flush the storage has seen (e.fm), not merely from the return of the call
+              \cup {[n |-> n, p |-> PathOf(m, n, 64), d |-> m.nodes[n].data, lo |-> Get(e, "fm", wlNow), hi |-> 1073741824] : n \in flushed \cap Ids(m)}
        v == os.v \cup st3.v \cup tv \cup c10 \cup c11 \cup c12 \cup c13 \cup c05
    IN [s |-> [s EXCEPT !.m = m, !.raw = post, !.D = Dp, !.rv = rv, !.sv = sv, !.svok = svok, !.dead = (v # {}),
                        !.changed = changed, !.mountSt = mountSt, !.ro = ro, !.fiUsable = fiUsable, !.fiW = fiW,
-                       !.mountRaw = IF e.op = "mount" THEN s.raw ELSE s.mountRaw,
+                       !.mountRaw = IF e.op = "mount" THEN s.raw ELSE s.mountRaw, !.dur = dur, !.wl = wlNow,
                        !.clk = IF Has(e, "clk") THEN e.clk ELSE s.clk],
        v |-> v, dev |-> st3.dev, note |-> {}]
 
